@@ -110,4 +110,17 @@ theorem C08_next_back_mut_eq (m : Mode) (it : Rows) : it.nextBackMut m = it.next
         · simp [hf]
         · simp [hf, hfl]
 
+/-- non-vacuity: the row cursor of a 2x2 window (stride 3, offset 1) of an 8-cell buffer is well-formed with 2 rows left and
+    stands for the windows `⟨1,2⟩`, `⟨4,2⟩` -/
+example : (⟨⟨1, 5⟩, 2, 1⟩ : Rows).WF 2 8 := ⟨by decide, by decide, by decide, by decide, by decide⟩
+example : VW.rows .debug ⟨⟨1, 5⟩, 2, 2, 3⟩ = .ok ⟨⟨1, 5⟩, 2, 1⟩ ∧
+    (⟨⟨1, 5⟩, 2, 1⟩ : Rows).abs 2 = [⟨1, 2⟩, ⟨4, 2⟩] := ⟨rfl, rfl⟩
+/-- non-vacuity of `C08_next`: on that cursor `next` yields the first row window and leaves a well-formed cursor -/
+example : ∃ it', (⟨⟨1, 5⟩, 2, 1⟩ : Rows).next = .ok (some ⟨1, 2⟩, it') ∧ it'.WF 1 8 := by
+  obtain ⟨it', h1, h2, _⟩ := C08_next ⟨⟨1, 5⟩, 2, 1⟩ 2 8 ⟨by decide, by decide, by decide, by decide, by decide⟩
+  exact ⟨it', h1, h2⟩
+/-- non-vacuity of `C08_rows_owned`: `rows()` of a concrete 3x2 array stands for its two row windows -/
+example : (TD.rows (⟨[1, 2, 3, 4, 5, 6], 2, 3⟩ : TD Nat)).abs 2 = [⟨0, 3⟩, ⟨3, 3⟩] :=
+  (C08_rows_owned (⟨[1, 2, 3, 4, 5, 6], 2, 3⟩ : TD Nat) ⟨rfl, by decide, by decide⟩).2
+
 end Toodee
